@@ -18,6 +18,9 @@ func VerifNewStartedPipeline(buf int, ctx context.Context, apply ApplyFunc) *Blo
 	return p
 }
 
+// VerifSetMaxPending rebuilds the apply stage with a reorder-buffer limit (WithMaxPendingBlocks).
+func VerifSetMaxPending(p *BlockPipeline, apply ApplyFunc, n int) { p.applyStage = NewApplyStage(apply, n) }
+
 func VerifSubmitChan(p *BlockPipeline) chan *BlockItem  { return p.submitChan }
 func VerifDecodedChan(p *BlockPipeline) chan *BlockItem { return p.decodedChan }
 
